@@ -75,6 +75,16 @@ type RTRMessage interface {
 	Serialize() ([]byte, error)
 }
 
+// checkPDULen validates the Length field of a received PDU: it has to cover
+// the fixed part of the PDU and must not exceed the bytes actually received.
+// Serialize() trusts the field, so it must never hold an unvalidated value.
+func checkPDULen(l uint32, minLen int, data []byte) error {
+	if l < uint32(minLen) || uint64(l) > uint64(len(data)) {
+		return fmt.Errorf("invalid RTR PDU length %d (minimum %d, received %d bytes)", l, minLen, len(data))
+	}
+	return nil
+}
+
 type RTRCommon struct {
 	Version      uint8
 	Type         uint8
@@ -91,6 +101,9 @@ func (m *RTRCommon) DecodeFromBytes(data []byte) error {
 	m.Type = data[1]
 	m.SessionID = binary.BigEndian.Uint16(data[2:4])
 	m.Len = binary.BigEndian.Uint32(data[4:8])
+	if err := checkPDULen(m.Len, RTR_SERIAL_NOTIFY_LEN, data); err != nil {
+		return err
+	}
 	m.SerialNumber = binary.BigEndian.Uint32(data[8:12])
 	return nil
 }
@@ -148,7 +161,7 @@ func (m *RTRReset) DecodeFromBytes(data []byte) error {
 	m.Version = data[0]
 	m.Type = data[1]
 	m.Len = binary.BigEndian.Uint32(data[4:8])
-	return nil
+	return checkPDULen(m.Len, RTR_RESET_QUERY_LEN, data)
 }
 
 func (m *RTRReset) Serialize() ([]byte, error) {
@@ -187,7 +200,7 @@ func (m *RTRCacheResponse) DecodeFromBytes(data []byte) error {
 	m.Type = data[1]
 	m.SessionID = binary.BigEndian.Uint16(data[2:4])
 	m.Len = binary.BigEndian.Uint32(data[4:8])
-	return nil
+	return checkPDULen(m.Len, RTR_CACHE_RESPONSE_LEN, data)
 }
 
 func (m *RTRCacheResponse) Serialize() ([]byte, error) {
@@ -229,6 +242,9 @@ func (m *RTRIPPrefix) DecodeFromBytes(data []byte) error {
 	m.PrefixLen = data[9]
 	m.MaxLen = data[10]
 	if m.Type == RTR_IPV4_PREFIX {
+		if err := checkPDULen(m.Len, RTR_IPV4_PREFIX_LEN, data); err != nil {
+			return err
+		}
 		if m.MaxLen > 32 || m.PrefixLen > m.MaxLen {
 			return errors.New("prefix or max length out of range for IPv4 RTRIPPrefix")
 		}
@@ -237,6 +253,9 @@ func (m *RTRIPPrefix) DecodeFromBytes(data []byte) error {
 	} else {
 		if len(data) < RTR_IPV6_PREFIX_LEN {
 			return errors.New("data too short for RTRIPPrefix")
+		}
+		if err := checkPDULen(m.Len, RTR_IPV6_PREFIX_LEN, data); err != nil {
+			return err
 		}
 		if m.MaxLen > 128 || m.PrefixLen > m.MaxLen {
 			return errors.New("prefix or max length out of range for IPv6 RTRIPPrefix")
